@@ -61,6 +61,17 @@
 (*           the classical example on which an orthogonalisation that is   *)
 (*           not backward stable loses orthogonality like u cond^2;        *)
 (*           condition number sqrt(n + eps^2) / eps <= sqrt(n + 1) / eps   *)
+(*  spdcond  A = H diag(e_i^2) H / 4^j, H = (v'v) I - 2 v v', e graded     *)
+(*           2^j, .., 1 (p = v, q = e, k = 2j): SPD with the PRESCRIBED    *)
+(*           condition number 4^j (64 .. 10^6), exact eigenvalues and the  *)
+(*           exact square root H diag(e) H / ((v'v) 2^j) and inverse       *)
+(*           square root (rationals) - TLC verifies S S = A, X A X = I     *)
+(*  partred  PARTIALLY REDUCED inputs, sizes 3..NP: every pattern of       *)
+(*           "column already reduced / not" (q = mask over the columns,    *)
+(*           p = <<t>> value pattern), r = <<kind>>: 0 Hessenberg-type     *)
+(*           (zeros below the sub-diagonal of the marked columns), 1 the   *)
+(*           symmetric version (for the tridiagonalisation), 2 bidiagonal  *)
+(*           type (zeros below the diagonal of the marked columns)         *)
 (* For these classes the case carries the exact condition number and   *)
 (* the orthogonality tolerance of the promised orthogonal factors is       *)
 (* OrthK * u * cond * m (u = 2^-53), never looser than the general one:    *)
@@ -69,7 +80,8 @@
 (***************************************************************************)
 EXTENDS Rat, FiniteSets, SequencesExt, Json
 
-CONSTANTS N,        \* largest dimension (3 quick, 4 thorough)
+CONSTANTS NP,       \* largest dimension of the partially reduced inputs (class partred)
+          N,        \* largest dimension (3 quick, 4 thorough)
           Level     \* 1 quick parameter grids, 2 thorough parameter grids
 
 VARIABLE g
@@ -179,6 +191,14 @@ Num(g_) ==
          LET E == Mat(g_.m, g_.n, LAMBDA i, j : IF i = j THEN g_.p[j] ELSE 0)
          IN MMul(Refl(g_.q), MMul(E, Refl(g_.r)))
     [] g_.cls = "hilbert" -> Mat(g_.n, g_.n, LAMBDA i, j : 420 \div (i + j - 1))
+    [] g_.cls = "spdcond" -> LET H == Refl(g_.p) IN MMul(H, MMul(DiagM(TLCEval([i \in 1..g_.n |-> g_.q[i] * g_.q[i]])), H))
+    [] g_.cls = "partred" ->
+         LET NZ(i, j) == IF Pat(g_.p[1], i, j) = 0 THEN 1 ELSE Pat(g_.p[1], i, j)       \* never an accidental zero
+             Marked(j) == j <= Len(g_.q) /\ g_.q[j] = 1
+             HessT(i, j) == IF i > j + 1 /\ Marked(j) THEN 0 ELSE NZ(i, j)
+         IN IF g_.r[1] = 0 THEN Mat(g_.n, g_.n, HessT)
+            ELSE IF g_.r[1] = 1 THEN Mat(g_.n, g_.n, LAMBDA i, j : IF i >= j THEN HessT(i, j) ELSE HessT(j, i))
+            ELSE Mat(g_.m, g_.n, LAMBDA i, j : IF i > j /\ Marked(j) THEN 0 ELSE NZ(i, j))
     [] g_.cls = "lauchli" ->
          LET L == Mat(g_.m, g_.n, LAMBDA i, j : IF g_.q[1] = 0 THEN (IF i = 1 THEN Pow2(g_.k) ELSE IF i = j + 1 THEN g_.p[j] ELSE 0)
                                                 ELSE (IF i = g_.m THEN Pow2(g_.k) ELSE IF i = j THEN g_.p[j] ELSE 0))
@@ -188,7 +208,7 @@ Den(g_) ==
   CASE g_.cls = "spd" -> Pow2(2 * g_.k * (g_.n - 1))
     [] g_.cls = "symrefl" -> Pow2(g_.k)
     [] g_.cls = "compan" -> Pow2(g_.k * (g_.n - 1))
-    [] g_.cls \in {"illcond", "lauchli"} -> Pow2(g_.k)
+    [] g_.cls \in {"illcond", "lauchli", "spdcond"} -> Pow2(g_.k)
     [] OTHER -> 1
 
 (* ------------------------------------------------------------ parameter grids *)
@@ -299,24 +319,39 @@ LauchliGens == {G("lauchli", n + 1, n, SubSeq(c, 1, n), <<v, h>>, <<>>, e) :
                   e \in (IF Level = 1 THEN {14, 18, 20} ELSE {8, 10, 12, 14, 16, 18, 20})}
 HilbertGens == {G("hilbert", n, n, <<>>, <<>>, <<>>, 0) : n \in Sizes \ {1}}
 
+SpdCondGens ==
+  UNION {
+    {G("spdcond", n, n, v, GradedD(n, j), <<>>, 2 * j) :
+       v \in (ReflVecs(n) \ {TLCEval([i \in 1..n |-> 0])}),
+       j \in (IF Level = 1 THEN {3, 5, 7, 8, 9, 10} ELSE 3..10)}
+    : n \in Sizes \ {1}}
+Masks(len) == Tuples(TLCEval([t \in 1..len |-> {0, 1}]))
+PartRedGens ==
+  UNION {
+    {G("partred", n, n, <<t>>, mk, <<kind>>, 0) : t \in (IF Level = 1 THEN {0} ELSE {0, 3}), mk \in Masks(n - 2), kind \in {0, 1}}
+    \cup (IF n <= 5 THEN {G("partred", n, n, <<t>>, mk, <<2>>, 0) : t \in (IF Level = 1 THEN {1} ELSE {1, 2}), mk \in Masks(n - 1)} ELSE {})
+    : n \in 3..NP}
+
 WellFormed(g_) ==
-  /\ g_.m >= g_.n /\ g_.m <= N /\ g_.n <= N
+  /\ g_.m >= g_.n /\ g_.m <= (IF g_.cls = "partred" THEN NP ELSE N) /\ g_.n <= (IF g_.cls = "partred" THEN NP ELSE N)
   /\ g_.cls = "dense" => (g_.q[1] <= g_.m /\ g_.q[2] <= g_.n /\ (g_.r[1] = 1 => g_.n > 1)
                           /\ (Level = 1 => (g_.q[1] = 0 \/ g_.q[2] = 0 \/ g_.q[1] = g_.q[2])))
 
 Gens == {x \in SpdGens \cup SymReflGens \cup CompanGens \cup TriangGens \cup BidiagGens \cup TridiagGens
-                 \cup HessGens \cup DenseGens \cup SvdReflGens \cup IllCondGens \cup HilbertGens \cup LauchliGens : WellFormed(x)}
+                 \cup HessGens \cup DenseGens \cup SvdReflGens \cup IllCondGens \cup HilbertGens \cup LauchliGens
+                 \cup SpdCondGens \cup PartRedGens : WellFormed(x)}
 
 (* ------------------------------------------------------------ exact knowledge *)
 RSeqOfInts(s, den) == TLCEval([i \in 1..Len(s) |-> Rat(s[i], den)])
 Dup(s) == TLCEval([i \in 1..(2 * Len(s)) |-> s[(i + 1) \div 2]])
 
 EigKnown(g_) ==
-  \/ g_.cls \in {"symrefl", "compan", "triang"}
+  \/ g_.cls \in {"symrefl", "compan", "triang", "spdcond"}
   \/ g_.cls = "bidiag" /\ g_.m = g_.n
 (* all real eigenvalues, with multiplicity *)
 EigReal(g_) ==
   CASE g_.cls = "symrefl" -> LET s == ReflScale(g_.p) IN TLCEval([i \in 1..g_.n |-> Rat(s * s * g_.q[i], Pow2(g_.k))])
+    [] g_.cls = "spdcond" -> LET s == ReflScale(g_.p) IN TLCEval([i \in 1..g_.n |-> Rat(s * s * g_.q[i] * g_.q[i], Pow2(g_.k))])
     [] g_.cls = "compan" -> RSeqOfInts(g_.q, 1)
     [] g_.cls = "triang" -> RSeqOfInts(g_.p, 1)
     [] g_.cls = "bidiag" /\ g_.m = g_.n -> RSeqOfInts(g_.p, 1)
@@ -326,10 +361,11 @@ EigCRe(g_) ==
   IF g_.cls = "compan" THEN Dup(TLCEval([i \in 1..(Len(g_.p) \div 2) |-> Rat(0 - g_.p[2 * i - 1], 2)])) ELSE <<>>
 
 SvKnown(g_) ==
-  \/ g_.cls \in {"symrefl", "svdrefl", "illcond"}
+  \/ g_.cls \in {"symrefl", "svdrefl", "illcond", "spdcond"}
   \/ g_.cls \in {"triang", "bidiag"} /\ AllZero(g_.q)
 SingVals(g_) ==
   CASE g_.cls = "symrefl" -> LET s == ReflScale(g_.p) IN TLCEval([i \in 1..g_.n |-> Rat(s * s * Abs(g_.q[i]), Pow2(g_.k))])
+    [] g_.cls = "spdcond" -> LET s == ReflScale(g_.p) IN TLCEval([i \in 1..g_.n |-> Rat(s * s * g_.q[i] * g_.q[i], Pow2(g_.k))])
     [] g_.cls = "svdrefl" -> LET s == ReflScale(g_.q) * ReflScale(g_.r) IN TLCEval([i \in 1..g_.n |-> RInt(s * Abs(g_.p[i]))])
     [] g_.cls \in {"triang", "bidiag"} /\ AllZero(g_.q) -> TLCEval([i \in 1..g_.n |-> RInt(Abs(g_.p[i]))])
     [] g_.cls = "illcond" -> LET s == ReflScale(g_.q) * ReflScale(g_.r) IN TLCEval([i \in 1..g_.n |-> Rat(s * Abs(g_.p[i]), Pow2(g_.k))])
@@ -349,19 +385,33 @@ LdlD(g_) == IF ~CholKnown(g_) THEN <<>> ELSE
   LET L == LowerOf(g_.p, g_.n)
   IN TLCEval([j \in 1..g_.n |-> Rat(L[j][j] * L[j][j], Pow2(2 * g_.k * (j - 1)))])
 
+(* exact principal square root and inverse square root (class spdcond):                              *)
+(*   A = Q L Q', Q = H / s, L = s^2 diag(e^2) / 4^j   =>   A^(1/2) = H diag(e) H / (s 2^j),           *)
+(*   A^(-1/2) = H diag(1 / e) H 2^j / s^3                                                             *)
+RootKnown(g_) == g_.cls = "spdcond"
+SqrtM(g_) == IF ~RootKnown(g_) THEN <<>> ELSE
+  LET H == Refl(g_.p)  s == ReflScale(g_.p)  R == MMul(H, MMul(DiagM(g_.q), H))
+  IN TLCEval([i \in 1..g_.n |-> TLCEval([j \in 1..g_.n |-> Rat(R[i][j], s * Pow2(g_.k \div 2))])])
+InvSqrtM(g_) == IF ~RootKnown(g_) THEN <<>> ELSE
+  LET H == Refl(g_.p)  s == ReflScale(g_.p)
+  IN TLCEval([i \in 1..g_.n |-> TLCEval([j \in 1..g_.n |->
+       RMul(RSumSeq(TLCEval([t \in 1..g_.n |-> Rat(H[i][t] * H[t][j], g_.q[t])])), Rat(Pow2(g_.k \div 2), s * s * s))])])
+
 (* ------------------------------------------------------------ input classes *)
 Square(g_) == g_.m = g_.n
-Symmetric(g_) == Square(g_) /\ (g_.cls \in {"spd", "symrefl", "tridiag", "hilbert"} \/ IsSym(Num(g_)))
+Symmetric(g_) == Square(g_) /\ (g_.cls \in {"spd", "symrefl", "tridiag", "hilbert", "spdcond"} \/ IsSym(Num(g_)))
 DiagDominantPos(A) == \A i \in 1..Rows(A) : A[i][i] > SumInts(TLCEval([j \in 1..Cols(A) |-> IF j = i THEN 0 ELSE Abs(A[i][j])]))
 SPD(g_) ==
   \/ g_.cls = "spd"
   \/ g_.cls = "symrefl" /\ \A i \in 1..g_.n : g_.q[i] > 0
+  \/ g_.cls = "spdcond"
   \/ g_.cls \in {"tridiag", "triang", "dense", "bidiag", "hess"} /\ Symmetric(g_) /\ DiagDominantPos(Num(g_))
 FullColRank(g_) ==
   CASE g_.cls = "spd" -> TRUE
     [] g_.cls = "symrefl" -> \A i \in 1..g_.n : g_.q[i] # 0
     [] g_.cls = "svdrefl" -> \A i \in 1..g_.n : g_.p[i] # 0
-    [] g_.cls \in {"illcond", "hilbert", "lauchli"} -> TRUE
+    [] g_.cls \in {"illcond", "hilbert", "lauchli", "spdcond"} -> TRUE
+    [] g_.cls = "partred" -> TRUE                                          \* not evaluated: Gram-Schmidt is never run on this class
     [] g_.cls = "compan" -> PolyOf(g_)[1] # 0
     [] g_.cls = "triang" -> \A i \in 1..g_.n : g_.p[i] # 0
     [] OTHER -> LET A == Num(g_) IN Det(MMul(Tr(A), A)) # 0              \* Gram determinant (small entries)
@@ -377,7 +427,7 @@ HilbertInv(n) == Mat(n, n, LAMBDA i, j : Sgn(i + j) * (i + j - 1) * Binom(n + i 
 HilbertR(n) == TLCEval([i \in 1..n |-> TLCEval([j \in 1..n |-> Rat(1, i + j - 1)])])
 MaxAbsS(q) == MaxInts(TLCEval([i \in 1..Len(q) |-> Abs(q[i])]))
 MinAbs(q) == MaxAbsS(q) - MaxInts(TLCEval([i \in 1..Len(q) |-> MaxAbsS(q) - Abs(q[i])]))
-CondKnown(g_) == g_.cls \in {"illcond", "hilbert", "lauchli"}
+CondKnown(g_) == g_.cls \in {"illcond", "hilbert", "lauchli", "spdcond"}
 (* the condition number as the symbolic term  a * b * 2^e2  (sqrt = FALSE) or  sqrt(a * b) * 2^e2  (sqrt = TRUE): *)
 (*  lauchli  sqrt((n + 1) / min c^2) * 2^k  >=  sigma_max / sigma_min   (sigma_max^2 <= n + 1, sigma_min >= min c 2^-k) *)
 (*  illcond  2-norm condition number  max|d| * (1 / min|d|)                                                      *)
@@ -389,6 +439,7 @@ CondTerm(g_) ==
     [] g_.cls = "hilbert" ->
          [a |-> RSumSeq(TLCEval([t \in 1..(g_.n * g_.n) |-> LET x == HilbertR(g_.n)[((t - 1) \div g_.n) + 1][((t - 1) % g_.n) + 1] IN RMul(x, x)])),
           b |-> RInt(SumSq(HilbertInv(g_.n))), sqrt |-> TRUE, e2 |-> 0]
+    [] g_.cls = "spdcond" -> [a |-> RInt(MaxAbsS(g_.q) * MaxAbsS(g_.q)), b |-> Rat(1, MinAbs(g_.q) * MinAbs(g_.q)), sqrt |-> FALSE, e2 |-> 0]
     [] g_.cls = "lauchli" -> [a |-> Rat(g_.n + 1, MinAbs(g_.p) * MinAbs(g_.p)), b |-> ROne, sqrt |-> TRUE, e2 |-> g_.k]
     [] OTHER -> [a |-> ROne, b |-> ROne, sqrt |-> FALSE, e2 |-> 0]
 (* safety factor of the orthogonality tolerance  OrthK * 2^-53 * cond * m  *)
@@ -444,12 +495,13 @@ Admissible(g_, rt) ==
 Focus(g_, rt) ==
   CASE rt \in {"cholesky", "ldl"} -> TRUE
     [] rt = "ldl_forcepd" -> g_.cls \in {"spd", "symrefl", "tridiag"}
-    [] rt \in {"msqrt", "msqrtinv"} -> g_.cls \in {"symrefl", "tridiag"} \/ (g_.cls = "spd" /\ g_.k <= 1)
+    [] rt \in {"msqrt", "msqrtinv"} -> g_.cls \in {"symrefl", "tridiag", "spdcond"} \/ (g_.cls = "spd" /\ g_.k <= 1)
     [] rt = "gramschmidt" -> g_.cls \in {"dense", "svdrefl", "bidiag", "triang", "illcond", "hilbert", "lauchli"}
-    [] rt \in {"bidiag", "svd"} -> g_.cls \in {"dense", "svdrefl", "bidiag", "illcond", "hilbert", "lauchli"} \/ (Level = 2 /\ g_.cls \in {"symrefl", "triang", "compan", "hess"})
-    [] rt \in {"tridiag", "qr_sym", "eigen_sym"} -> g_.cls \in {"symrefl", "tridiag", "spd", "hilbert"} \/ (g_.cls \in {"triang", "dense"} /\ Symmetric(g_))
+    [] rt \in {"bidiag", "svd"} -> g_.cls \in {"dense", "svdrefl", "bidiag", "illcond", "hilbert", "lauchli"} \/ (g_.cls = "partred" /\ g_.r[1] = 2) \/ (Level = 2 /\ g_.cls \in {"symrefl", "triang", "compan", "hess"})
+    [] rt \in {"tridiag", "qr_sym", "eigen_sym"} -> g_.cls \in {"symrefl", "tridiag", "spd", "hilbert", "spdcond"} \/ (g_.cls = "partred" /\ g_.r[1] = 1) \/ (g_.cls \in {"triang", "dense"} /\ Symmetric(g_))
     [] rt \in {"hessenberg", "qr"} -> g_.cls \in {"compan", "triang", "hess", "dense", "symrefl", "bidiag", "tridiag", "illcond", "hilbert"}
-    [] rt = "eigen" -> g_.cls \in {"compan", "triang", "symrefl", "bidiag", "tridiag"}
+                                         \/ (g_.cls = "partred" /\ g_.r[1] \in {0, 1})
+    [] rt = "eigen" -> g_.cls \in {"compan", "triang", "symrefl", "bidiag", "tridiag"} \/ (g_.cls = "partred" /\ g_.r[1] = 1)
 RoutinesOf(g_) == SetToSeq({rt \in RoutineNames : Admissible(g_, rt) /\ Focus(g_, rt)})
 
 (* ------------------------------------------------------------ the printed case *)
@@ -459,6 +511,7 @@ Case(g_) ==
    eigk |-> EigKnown(g_), eig |-> EigReal(g_), cre |-> EigCRe(g_),
    svk |-> SvKnown(g_), sv |-> SingVals(g_),
    condk |-> CondKnown(g_), cond |-> CondTerm(g_), orthk |-> OrthK,
+   rootk |-> RootKnown(g_), sqrtm |-> SqrtM(g_), invsqrtm |-> InvSqrtM(g_),
    cholk |-> CholKnown(g_), chol |-> CholL(g_), ldll |-> LdlL(g_), ldld |-> LdlD(g_), suffpd |-> SuffPD(g_),
    routines |-> RoutinesOf(g_)]
 
@@ -502,6 +555,17 @@ KnowledgeOK ==
        /\ MMul(Refl(g.r), Refl(g.r)) = MScale(ReflScale(g.r) * ReflScale(g.r), Ident(g.n))
        /\ \A i \in 1..g.n : g.p[i] > 0 /\ g.p[i] <= g.p[1]
        /\ MinAbs(g.p) = 1 /\ g.p[1] = Pow2(g.k)
+  /\ g.cls = "spdcond" =>                                   \* S S = A and X A X = I in exact rationals, S and X symmetric
+       LET Sq == SqrtM(g)  X == InvSqrtM(g)
+       IN /\ (g.k > 10 \/ RMatMul(Sq, Sq) = RMatOf(g))                                       \* (larger gradings: same formula, 32-bit range)
+          /\ (g.k > 10 \/ RMatMul(X, RMatMul(RMatOf(g), X)) = RDiagM(TLCEval([i \in 1..g.n |-> ROne])))
+          /\ Sq = RTr(Sq) /\ X = RTr(X)
+          /\ g.k % 2 = 0 /\ MinAbs(g.q) = 1
+  /\ g.cls = "partred" =>
+       LET A == Num(g) IN
+       /\ g.r[1] \in {0, 1} => \A j \in 1..Len(g.q) : (g.q[j] = 1) = (\A i \in (j + 2)..g.n : A[i][j] = 0)
+       /\ g.r[1] = 2 => \A j \in 1..Len(g.q) : (g.q[j] = 1) = (\A i \in (j + 1)..g.m : A[i][j] = 0)
+       /\ g.r[1] = 1 => IsSym(A)
   /\ (g.cls = "lauchli" /\ g.q[2] = 0) =>                                \* A'A = J + diag(eps_j^2)  (numerators: 4^k J + diag(c_j^2)), eigenvalues n + eps^2 and eps^2
        (g.k > 14 \/ MMul(Tr(Num(g)), Num(g)) = Mat(g.n, g.n, LAMBDA i, j : Pow2(g.k) * Pow2(g.k) + (IF i = j THEN g.p[i] * g.p[i] ELSE 0)))
   /\ g.cls = "hilbert" =>
